@@ -38,3 +38,12 @@ PROPS['C09'] = dict(
     assumptions=COMMON_ASSUMPTIONS, job_limit_s=120,
     explanation='C09: per-operator contracts + the order laws proved on the real code per class pair/triple; bounded layer runs the same laws over a 24-value pool through formulas and native library calls.',
 )
+
+PROPS['C07'] = dict(
+    unit_modules=['contracts.c07_errors'], driver_modules=['drivers.c07'], level='other',
+    level_text='Generated from the real signatures: for every registered function x every scalar parameter position the real validate_args loop (or the raw function) is interpreted with an error value at that position, symbolic values before it and a different error after it - the leftmost error is returned (all values, unbounded); aggregates: error among 3 arguments / in a 3-cell range; all 12 binary operators, unary minus and percent over every pair of {Number int/float, Text, Boolean, Blank, DateTime} with symbolic values: a value or #VALUE!/#DIV/0!/#NUM!, never a Python exception; truth tables of the IS* family over the class fork. Claimed as "other": argument lists and ranges are covered for lengths up to 3 only (bounded in length), cell storage/hand-on of errors and the 7 codes through formulas are decided by the bounded layer.',
+    level_note='Trusted: int()/float() of text, str.lower, dateutil.parser.parse (returns a datetime or raises ValueError/OverflowError), numpy_financial.pmt/pv, numpy ufuncs as uninterpreted functions; floats as reals (overflow to inf/OverflowError is invisible to the proof and is left to the bounded layer); pandas DataFrame construction of the concrete 3-cell ranges runs natively; pyvc interpreter (CPython cross-check + canaries). Known findings: SUMPRODUCT returns #N/A for any error in its ranges (pinned by an existing test).',
+    trusted_base=['intrinsic axioms of the uninterpreted builtins (pyvc/models.py UF_AXIOMS), natively tested on every run', 'assumed contract: dateutil.parser.parse', 'assumed contract: numpy_financial.pmt / pv are total on floats'],
+    assumptions=COMMON_ASSUMPTIONS, job_limit_s=120,
+    explanation='C07: error propagation and no-crash obligations generated from the real signature table.',
+)
